@@ -121,8 +121,12 @@ def executions(prog, res, indices=False):
     are (index of the trace in res["traces"], steps)."""
     by_path = {}
     raw = []
+
+    def fits(s):          # the checker's record is the transition of the sub-step the actor is at in its operation
+        ts = OPTYPES.get(s["op"], ())
+        return s.get("ca") == s["a"] and 0 < s["sub"] <= len(ts) and s.get("ctype") == ts[s["sub"] - 1]
     for t in res["traces"]:
-        steps, cur = [], {}
+        steps, cur, nsub = [], {}, {}
         path = ()
         for r in t:
             if r.get("e") == "issue":
@@ -130,9 +134,11 @@ def executions(prog, res, indices=False):
             elif r.get("e") == "handle":
                 s = dict(r)
                 s["k"], s["op"] = cur.get(r["a"], (0, "?"))
+                nsub[(r["a"], s["k"])] = nsub.get((r["a"], s["k"]), 0) + 1
+                s["sub"] = nsub[(r["a"], s["k"])]
                 path = path + ((r["a"], r.get("tc", 0)),)
                 s["path"] = path
-                if "ctype" in s and "cmis" not in s and s.get("ca") == s["a"] and s["ctype"] in OPTYPES.get(s["op"], ()):
+                if "ctype" in s and "cmis" not in s and fits(s):
                     by_path[path] = {k: v for k, v in s.items() if k.startswith("c")}
                 steps.append(s)
         raw.append(steps)
@@ -140,13 +146,15 @@ def executions(prog, res, indices=False):
     for ti, steps in enumerate(raw):
         ok = True
         for s in steps:
-            if "ctype" not in s:
+            if "ctype" not in s or not fits(s):
                 v = by_path.get(s["path"])
                 if v is None:
                     ok = False
                     break
+                for k in [k for k in s if k.startswith("c")]:
+                    del s[k]
                 s.update(v)
-            if s.get("ca") != s["a"] or s["ctype"] not in OPTYPES.get(s["op"], ()):
+            if not fits(s):
                 ok = False
                 break
         if not ok:
